@@ -19,7 +19,7 @@ DEFAULT = dict(
     RogueHandshake=False, PartialFrames=False,
     Intervals=set(),
     Fire=False, Close=True, Erase=False, IdOps=False, Crash=False, Garbage=False, BadFrames=set(),
-    SendWhileDisc=False, PeerWhileDisc=False, LateFrames=False,
+    SendWhileDisc=False, PeerWhileDisc=False, LateFrames=False, CrossVersion=False,
     # not TLC constants:
     invariants=[],
 )
@@ -102,6 +102,11 @@ SLICES = {
                            "pingreq", "pingresp", "disconnect", "auth"},
                  QosSet={0, 1}, OptSets=[set(), {"offline"}], Cleans={True, False}, SendWhileDisc=True, MaxConns=1, MaxHeld=1, MaxUsed=1,
                  Close=False),
+    # ... and packets of the other protocol version, in every state (refused with the identifier released, by send and by checked_send)
+    "gate_x": dict(Roles={"client", "server", "any"}, Vers={"v311", "v50"},
+                   AppKinds={"publish", "puback", "pubrec", "pubrel", "pubcomp", "subscribe", "suback", "unsubscribe", "unsuback",
+                             "pingreq", "pingresp", "disconnect", "auth"},
+                   QosSet={0, 1}, Cleans={True}, SendWhileDisc=True, MaxConns=1, MaxHeld=1, MaxUsed=1, Close=False, CrossVersion=True),
     # receive gate matrix and version auto-detection (C17)
     "rgate": dict(Roles={"client", "server", "any"}, Vers={"v311", "v50", "undet"},
                   PeerKinds={"publish", "puback", "pubrec", "pubrel", "pubcomp", "subscribe", "suback", "unsubscribe", "unsuback",
